@@ -11,7 +11,7 @@ never a violation.
 import ast, itertools, hashlib, os
 from z3 import (IntSort, RealSort, BoolSort, StringSort, DeclareSort, Datatype, Const, Function, ArraySort, Select, Store,
                 IntVal, RealVal, BoolVal, StringVal, ToReal, ToInt, And, Or, Not, Implies, If, ForAll, Exists, MultiPattern,
-                is_true, is_false, simplify, Length, SubString, Concat, SuffixOf, PrefixOf, Contains, K)
+                is_true, is_false, simplify, is_app, Z3_OP_NOT, Z3_OP_STORE, Length, SubString, Concat, SuffixOf, PrefixOf, Contains, K)
 
 SRC = os.environ.get('PJPLAN_SRC', '/repo/src')
 
@@ -284,6 +284,8 @@ class Engine:
         cls, f = key.split('.', 1)
         n = Const(f'H_{key}!{next(_fresh)}', ArraySort(REF(cls).z, self.fsort(cls, f).z))
         st.assume(n == arr); st.heap[key] = n
+        if is_app(arr) and arr.decl().kind() == Z3_OP_STORE:
+            st.assume(Select(n, arr.arg(1)) == arr.arg(2))          # redundant; lets E-matching see the written value without array reasoning
 
     def havoc(self, st, key):
         cls, f = key.split('.', 1)
@@ -821,8 +823,12 @@ class Engine:
         for s, c in self.ev(stmt.test, st):
             if isinstance(c, Raise): out.append((s, c)); continue
             t = self.truth(s, c)
-            if not is_false(simplify(t)): out += self.block(stmt.body, s.fork(t))
-            if not is_true(simplify(t)): out += self.block(stmt.orelse, s.fork(Not(t)))
+            ts = simplify(t)
+            known_true = is_true(ts) or any(t.eq(h) or ts.eq(h) for h in s.conds)
+            known_false = is_false(ts) or any(h.decl().kind() == Z3_OP_NOT and (h.arg(0).eq(t) or h.arg(0).eq(ts)) for h in s.conds if is_app(h))
+            # a test already decided on this path (e.g. `if is_leaf:` repeated) does not fork again: avoids infeasible path combinations
+            if not known_false: out += self.block(stmt.body, s.fork(t))
+            if not known_true: out += self.block(stmt.orelse, s.fork(Not(t)))
         return out
 
     def ex_Try(self, stmt, st):
@@ -869,6 +875,7 @@ class Engine:
         if lc.get('havoc_now') and 'now' in h.ghost:
             nw = fresh('now', TIME); h.assume(nw >= h.ghost['now']); h.ghost['now'] = nw
         for lab, inv in lc['invariant']: h.assume(self.spec(inv, h, entry=entry))
+        h.obs.append((f'cover/loop#{k}-head-reachable', list(h.conds), None, f'loop @{stmt.lineno}'))
         out = []
         for s, g in guard_fn(h):
             if isinstance(g, Raise): out.append((s, g)); continue
@@ -942,10 +949,13 @@ class Engine:
             st.env[name] = V(Const(name, sort.z), sort)
         for g, srt in self.ghost_sorts.items():
             st.ghost[g] = Const(g + '_0', srt.z)
+        if fc.get('clock'):
+            st.ghost['now'] = fresh('now0', TIME)          # the clock at entry; later reads are >= it
         for lab, r in fc.get('requires', []):
             st.assume(self.spec(r, st))
         # lazily created initial heap constants are named deterministically (H_<field>_0), so a copy taken here denotes
         # the entry heap also for fields first touched later
+        st.obs.append(('cover/pre-condition-satisfiable', list(st.conds), None, 'function entry'))
         pre_state = St(st.env, st.heap, st.conds, [], st.ghost)
         self.pre_state = pre_state
         outs = self.block(self.fn.body, st)
